@@ -16,7 +16,7 @@ from props.graphfacts import conclude, replay  # noqa: F401
 from props.c15 import split_tree
 
 THEOREMS = ["Rva.region_marks_columns", "Rva.sortDiags_sorted", "Rva.lint_titles_nonempty",
-            "Rva.lint_severity_functional", "Rva.lint_tables_total"]
+            "Rva.lint_severity_functional", "Rva.lint_tables_total", "Rva.excerpt_aligned"]
 
 LEVELS = {"Error", "Warning", "Info", "Hint"}
 
@@ -37,6 +37,14 @@ def parse_compact(text):
     return items
 
 
+GUTTER_PROBLEMS = []
+REGION_CASES = []     # (source line, line, start col, end col, title, dir): excerpts to re-derive
+PRETTY_BLOCKS = {}     # (dir, title, line) -> the three excerpt lines as printed
+
+
+LAST_BLOCKS = []
+
+
 def parse_pretty(text):
     """[(level, title, path, line, caret_start, caret_len, shown_text)]"""
     items = []
@@ -46,8 +54,17 @@ def parse_pretty(text):
         if m:
             line = int(m.group(4)) - 1 if m.group(4) else None
             carets = m.group(6) if m.group(6) is not None else ""
+            ex3 = None
+            if m.group(4):
+                # the gutter bars of the three excerpt lines must stand in one column, otherwise the
+                # markers are not under the text they are meant for
+                ex = b.split("\n")[2:5]
+                bars = [x.find("|") for x in ex]
+                if len(set(bars)) != 1:
+                    GUTTER_PROBLEMS.append((m.group(2), int(m.group(4)), ex))
+                ex3 = ex
             items.append((m.group(1), m.group(2), m.group(3), line,
-                          carets.find("^") if "^" in carets else None, carets.count("^"), m.group(5)))
+                          carets.find("^") if "^" in carets else None, carets.count("^"), m.group(5), ex3))
     return items
 
 
@@ -178,8 +195,13 @@ def run(res, tier, seed):
                     pf_p.setdefault(os.path.realpath(os.path.join(d, it[2])) if it[2] != "<unknown file>" else it[2], []).append(it)
                 for it in want:
                     pf_w.setdefault(it[2], []).append(it)
+                if GUTTER_PROBLEMS and first is None:
+                    t_, ln_, ex_ = GUTTER_PROBLEMS[0]
+                    first = {"what": f"pretty excerpt of {t_!r} at line {ln_}: the gutter bars of the excerpt lines "
+                                     f"are not in one column, the markers are shifted against the text: {ex_}",
+                             "dir": d}
                 pairs = [(a, b) for k_ in pf_w for a, b in zip(pf_p.get(k_, []), pf_w[k_])]
-                for (lvl, title, path, line, cstart, clen, shown), w in pairs:
+                for (lvl, title, path, line, cstart, clen, shown, ex3), w in pairs:
                     if line is None or w[2] == "<unknown file>":
                         continue
                     src = open(w[2], encoding="utf-8").read().split("\n")
@@ -190,6 +212,7 @@ def run(res, tier, seed):
                     stats["pretty_excerpts_checked"] += 1
                     ok = (line == w[3] and shown == text.strip() and cstart == max(0, w[4] - fnw)
                           and clen == w[5] + 1 - w[4])
+                    REGION_CASES.append((text, w[3], w[4], w[5], title, d, ex3))
                     if "\t" in text[:w[4]]:
                         ok = ok or (line == w[3] and clen == w[5] + 1 - w[4])   # tabs are kept as tabs
                     if not ok and first is None:
@@ -200,6 +223,17 @@ def run(res, tier, seed):
             lib_reqs.append(pipe_req("run", [("base.s", s)]))
             rc, js, err = rva(["--json", "base.s"], d)
             lib_meta.append((d, js))
+    # the excerpt as the Lean model of `format_region` prints it (theorems region_marks_columns and
+    # excerpt_aligned are about that model) against the excerpt the real printer printed
+    from common import DRIVER, hx
+    rq = [f"region {hx(t)} {ln} {a} {b}" for t, ln, a, b, _, _, _ in REGION_CASES]
+    mo = run_lines_isolated(DRIVER, rq, chunk=200, timeout=120) if rq else []
+    stats["excerpts_vs_model"] = len(rq)
+    for (t, ln, a, b, title, d_, ex3), blk in zip(REGION_CASES, mo):
+        want3 = [unhx(l.split()[1]) if len(l.split()) > 1 else "" for l in blk if l.startswith("REGION")]
+        if ex3 is not None and [x.rstrip() for x in want3] != [x.rstrip() for x in ex3] and first is None:
+            first = {"what": f"the excerpt printed for {title!r} (line {ln}, columns {a}..{b}) differs from the "
+                             f"model of format_region: printed {ex3}, model {want3}", "dir": d_}
     # the library entry point used by the editor integration vs the CLI
     out = run_lines_isolated(RVH_DEBUG, lib_reqs, chunk=50)
     for (d, js), blk in zip(lib_meta, out):
@@ -230,7 +264,8 @@ def run(res, tier, seed):
                        "with and without --all-files, and the library call RVParser::run must report the same "
                        "(severity, title, file, line, columns) in the same order; JSON validity and shape; titles "
                        "non-empty; one severity per kind; sorted within each file; each pretty excerpt shows the "
-                       "reported line with markers under the reported columns")
+                       "reported line with markers under the reported columns; every printed excerpt equals the Lean model of "
+                       "format_region character for character")
     res.cov["samples"] = [lib_reqs[0][:200]] if lib_reqs else []
     res.cov["input_distribution"] = stats
     res.cov["traces_validated_against_impl"] = stats["cli_runs"]
